@@ -330,6 +330,9 @@ class Inventory:
                 return ("Handle", self.classify(args[0], depth + 1), np.rsplit("::", 1)[-1])
             if np == "std::fs::OpenOptions::open" and len(args) >= 2:
                 return ("Handle", self.classify(args[1], depth + 1), "options")
+            if np in ("std::os::fd::AsRawFd::as_raw_fd", "std::os::fd::AsFd::as_fd", "std::os::unix::io::AsRawFd::as_raw_fd") or \
+                    rp.endswith("AsRawFd>::as_raw_fd"):
+                return self.classify(args[0], depth + 1)
             if np in ("tempfile::NamedTempFile::<F>::as_file", "tempfile::NamedTempFile::<F>::as_file_mut"):
                 return self.classify(args[0], depth + 1)
             if np in ("std::ops::DerefMut::deref_mut", "std::ops::Deref::deref") and args:
